@@ -279,7 +279,8 @@ func getCluster(ks, n, t, m int) *cluster {
 		cpk, err := core.PubKeyFromBytes(pub[:])
 		hx.Must(err)
 		ps := map[int]tbls.PublicKey{}
-		for idx, s := range sh {
+		for idx := 1; idx <= n; idx++ {
+			s := sh[idx]
 			p, err := tbls.SecretToPublicKey(s)
 			hx.Must(err)
 			ps[idx] = p
@@ -566,6 +567,9 @@ func buildSample(kind int, a buildArgs) *sample {
 	case kReg:
 		r := testutil.RandomVersionedSignedValidatorRegistration(new(testing.T))
 		r.V1.Signature = eth2p0.BLSSignature{}
+		// the generator uses crypto/rand and time.Now: overwrite with values from the seeded source
+		_, _ = rand.Read(r.V1.Message.FeeRecipient[:])
+		r.V1.Message.Timestamp = time.Unix(1700000000+int64(rand.Intn(1000000)), 0)
 		return &sample{kind, r}
 	case kRaw:
 		s := core.Signature(make([]byte, 96))
